@@ -194,6 +194,10 @@ def run(ctx):
     funnel(ctx, A, R1)
     r15_2(ctx, A)
     r15_3(ctx)
+    # one cache per builder, created by the single constructor with literal geometry: a second creation site (per entry point) makes
+    # the emitted bytes depend on which constructor-like convenience was used
+    import rules.C12 as C12
+    C12.r12_3_6(ctx, A)
     # "the bytes are a function of the ACCEPTED calls" needs rejected calls to leave no trace: R06.3 / R06.5 (mode constants)
     import rules.C06 as C06
     chk, add, ins = C06.find_check_fn(ctx, A, 'R06.1')
